@@ -267,7 +267,7 @@ fn departure(by_reader: bool, pending: bool) {
     core::mem::forget(p);
 }
 
-// @check props=C03 tier=quick known=KF-C03-1
+// @check props=C03 tier=thorough known=KF-C03-1
 // @desc KNOWN FINDING: a wait_for_acknowledgments waiter parked behind a matched reliable reader is NOT completed when that reader's participant is removed (remove_discovered_participant: lease expiry, SPDP disposal, ignore_participant): the RTPS reader proxy is deleted, so is_change_acknowledged(last) becomes true, but wait_for_acknowledgments_notification is drained only by the ACKNACK handler (communication_methods.rs) and no ACKNACK from the departed reader will ever arrive: the caller hangs until its own timeout
 // @bounds one writer, one matched reliable reader, one parked waiter; last in [1, i64::MAX]
 // @assume trigger: a waiter is parked at the time the reader's participant is removed
@@ -283,26 +283,10 @@ fn c03_departure_participant_pending__known() {
     departure(false, true);
 }
 
-// @check props=C03 tier=quick known=KF-C03-2
-// @desc KNOWN FINDING: when a matched reliable reader is deleted (SEDP disposal -> remove_discovered_reader) the DDS-level match is removed but the RTPS reader proxy stays in the writer: is_change_acknowledged(last) stays false for ever (the proxy can never acknowledge), so a parked waiter is never completed and every later wait_for_acknowledgments parks as well
-// @bounds one writer, one matched reliable reader, waiter parked before the disposal; last in [1, i64::MAX]
-// @assume trigger: the reader departs through SEDP disposal (remove_discovered_reader)
-// @enc DcpsDomainParticipant::remove_discovered_reader
-// @enc DcpsDomainParticipant::notify_acknowledgments
-#[kani::proof]
-#[kani::unwind(2)]
-#[kani::stub(critical_section::acquire, super::support_cs::cs_acquire)]
-#[kani::stub(critical_section::release, super::support_cs::cs_release)]
-#[kani::stub(tracing::level_filters::LevelFilter::current, super::support_qos::tracing_off)]
-fn c03_departure_reader_disposed__known() {
-    s1::link_drop_glue();
-    departure(true, true);
-}
-
-// @check props=C03 tier=quick
-// @desc sibling of KF-C03-1 / KF-C03-2 with both triggers negated: the reader's participant is removed (remove_discovered_participant) while NO waiter is parked; afterwards the reader is unmatched, is_change_acknowledged(last) holds and a wait_for_acknowledgments issued after the departure is answered Ok immediately
+// @check props=C03 tier=thorough
+// @desc sibling of KF-C03-1 with the trigger negated: the reader's participant is removed (remove_discovered_participant) while NO waiter is parked; afterwards the reader is unmatched, is_change_acknowledged(last) holds and a wait_for_acknowledgments issued after the departure is answered Ok immediately
 // @bounds one writer, one matched reliable reader; last in [1, i64::MAX]
-// @assume negated triggers: departure by participant removal, no waiter parked at that time
+// @assume negated trigger: no waiter is parked at the time of the participant removal
 // @enc DcpsDomainParticipant::remove_discovered_participant
 // @enc DcpsDomainParticipant::notify_acknowledgments
 #[kani::proof]
